@@ -190,4 +190,4 @@ Fixpoint run_from (w : wstate) (ops : list (list Z)) : list (list Z) :=
   | l :: r => let '(w', o) := step_wire w l in o :: run_from w' r
   end.
 
-Definition run_case (ops : list (list Z)) : list (list Z) := run_from w_init ops.
+Definition curator_run_case (ops : list (list Z)) : list (list Z) := run_from w_init ops.
